@@ -187,9 +187,9 @@ type session struct {
 	socket                         socket.Socket
 	closeNotifyCh                  chan struct{} // closeNotifyCh is the channel returned by CloseNotify.
 	writeLock                      sync.Mutex
-	graceCtxWaitGroup              sync.WaitGroup
+	graceCtxWaitGroup              graceWaitGroup
 	graceCtxMutex                  sync.Mutex
-	graceCallCmdWaitGroup          sync.WaitGroup
+	graceCallCmdWaitGroup          graceWaitGroup
 	sessionAge                     time.Duration
 	contextAge                     time.Duration
 	sessionAgeLock                 sync.RWMutex
@@ -199,6 +199,43 @@ type session struct {
 	seq                            int32
 	status                         int32
 	didCloseNotify                 int32
+}
+
+// graceWaitGroup counts running handlers / pending calls for graceful closing.
+// Unlike sync.WaitGroup it tolerates Add being called while another goroutine
+// is in Wait (a call or a received message racing with Close), which makes
+// sync.WaitGroup panic with "WaitGroup is reused before previous Wait has returned".
+type graceWaitGroup struct {
+	mu   sync.Mutex
+	cond *sync.Cond
+	n    int
+}
+
+// Add adds delta, which may be negative, to the counter.
+func (g *graceWaitGroup) Add(delta int) {
+	g.mu.Lock()
+	g.n += delta
+	if g.n <= 0 && g.cond != nil {
+		g.cond.Broadcast()
+	}
+	g.mu.Unlock()
+}
+
+// Done decrements the counter by one.
+func (g *graceWaitGroup) Done() {
+	g.Add(-1)
+}
+
+// Wait blocks until the counter is zero.
+func (g *graceWaitGroup) Wait() {
+	g.mu.Lock()
+	if g.cond == nil {
+		g.cond = sync.NewCond(&g.mu)
+	}
+	for g.n > 0 {
+		g.cond.Wait()
+	}
+	g.mu.Unlock()
 }
 
 func newSession(peer *peer, conn net.Conn, protoFuncs []ProtoFunc) *session {
